@@ -669,7 +669,13 @@ class SQLTranspiler(StructureVisitor, ASTTemplate):
         if operand_type == _DATASET:
             ds = self._get_dataset_structure(node.operand)
             name_override: Optional[str] = None
-            if op == tokens.ISNULL and ds and len(ds.get_measures_names()) == 1:
+            if (
+                op == tokens.ISNULL
+                and ds
+                and len(ds.get_measures_names()) == 1
+                and ds.get_measures()[0].data_type != Boolean
+            ):
+                # A Boolean measure keeps its name (no type change, as in semantic analysis).
                 name_override = "bool_var"
 
             def _unary_expr(col_ref: str) -> str:
